@@ -591,7 +591,10 @@ func init() {
 		Assume:    []string{"documented defaults transcribed from README.md (membership type: the code's 'couchbase')", "size strings with <= 3 fraction digits: exact product compared, float error cannot hide a wrong factor"},
 		Pure:      c17Pure,
 		Instances: func(tier string) []Instance {
-			return []Instance{{Scenario: "c17_shared", Params: mustJSON(struct{}{}), Bound: 0, Shards: 2, Note: "explicitly set values as seen by a concurrent reader at every scheduling point (incl. every log call) of the real newDcp"}}
+			return []Instance{
+				{Scenario: "c17_shared", Params: mustJSON(struct{}{}), Bound: 0, Shards: 2, Note: "explicitly set values as seen by a concurrent reader at every scheduling point (incl. every log call) of the real newDcp"},
+				{Scenario: "c17_runtime", Params: mustJSON(struct{}{}), Bound: 0, Shards: 2, Note: "the configuration as read back through GetConfig() before Start() and after Close(): running the client (health check with a time-out below / equal to / above its interval, mitigation, checkpoint schedule, a rebalance) alters nothing"},
+			}
 		},
 	})
 }
